@@ -98,8 +98,10 @@ def check(ctx):
                         ctx.violation("contains:wrong_answer", "contains_behavior disagrees with exact evaluation (a large bound missed / met by a small dyadic amount)",
                                       {"terms": [cf.jsonable_term(t) for t in big], "behavior": {x: str(q) for x, q in items}, "answer": v if okind == "ok" else list(v)})
         # emptiness
-        mode = rng.choice(["as_is", "thin_feasible", "thin_infeasible", "infeasible", "box_later_variable_empty", "constant_rows"])
+        mode = rng.choice(["as_is", "thin_feasible", "thin_infeasible", "infeasible", "box_later_variable_empty", "constant_rows", "no_terms"])
         es = list(ts)
+        if mode == "no_terms":
+            es = []               # the list without any constraint ("true"): what evaluate / `-` / get_terms_with_vars hand back; it is NOT empty
         if mode == "box_later_variable_empty" and nv < 2:
             mode = "as_is"
         if mode == "box_later_variable_empty":
@@ -116,7 +118,7 @@ def check(ctx):
             # variable-free rows (what a rename that cancels coefficients leaves behind): a false one empties the set, true ones say nothing
             es = es + [({}, F(rng.choice([-1, -2, 1, 3])))] + ([({}, F(rng.choice([0, 2])))] if rng.random() < 0.6 else [])
             rng.shuffle(es)
-        elif mode != "as_is":
+        elif mode not in ("as_is", "no_terms"):
             t = rng.choice(ts)
             gap = {"thin_feasible": F(1, 2 ** 10), "thin_infeasible": -F(1, 2 ** 10), "infeasible": -F(rng.randint(1, 4))}[mode]
             es = es + [({x: -a for x, a in t[0].items()}, -t[1] + gap)]
